@@ -4,7 +4,7 @@
   `wrm_c08` executes (WR/C08/Model.lean) and hold for every parameter table `P` (the real
   validators are the parameter `P.V`; nothing is assumed about them unless stated).
 -/
-import WR.C08.Lemmas
+import WR.C08.LemmasAcyclic
 namespace WR.Props.C08
 open WR.C08
 
@@ -328,13 +328,81 @@ theorem acyclic_never_cut_partial (env : Bindings) (ip : List String) (v : Strin
   simp only [resTok, hv, hargs, show lower "var" = "var" by decide]
   simp [hnot', expandVar_some env v (v :: ip) val hdef hne, resList_plain _ _ val hplain]
 
+/-- `acyclic_never_cut`: in an environment without dependency cycle (`rk` strictly decreases along
+    references) a reference to a defined custom property is NEVER cut: it resolves to the value of the
+    property resolved exactly as a top-level value (full environment, nothing in progress) — whatever
+    the value contains: repeated references, diamonds, nested functions, fallbacks. -/
+theorem acyclic_never_cut (E : Bindings) (rk : String → Nat) (hE : Acyclic E rk)
+    (name v : String) (args rest l : List Tok)
+    (hn : lower name = "var") (hname : hasPrefix "--" v = true)
+    (hargs : parseArgs args false = some (.ident v :: rest))
+    (hdef : E.lookup v = some l) (hne : l ≠ []) :
+    resolveVar E (.fn name args) = some (solveTokens E l) := by
+  have hv : hasVar (.fn name args) = true := by
+    simp [hasVar, hargs, headIsVarName, hname, hn]
+  simp only [resolveVar, resTok, hv, hargs, hn]
+  simp [expandVar_some E v [v] l hdef hne, solveTokens,
+    value_resolved_as_top E rk hE v l [] (by simp) hdef]
+
+/-- the guard is irrelevant in an acyclic environment: with ANY set of higher-ranked custom properties in
+    progress and their bindings erased, a value resolves as at top level -/
+theorem acyclic_guard_irrelevant (E : Bindings) (rk : String → Nat) (hE : Acyclic E rk) (v : String)
+    (l : List Tok) (ip : List String) (hip : ∀ u ∈ ip, rk v ≤ rk u) (hdef : E.lookup v = some l) :
+    resList (expandVar (E.without v)) (v :: ip) l = solveTokens E l :=
+  value_resolved_as_top E rk hE v l ip hip hdef
+
+/-- `var_is_substitution` for acyclic environments: `S = solveTokens E` satisfies the defining equations
+    of textual substitution — it distributes over the tokens of a value, leaves tokens without var()
+    alone, descends into functions, replaces a reference to a defined custom property by the
+    substituted value of that property, and an undefined one by its substituted fallback. -/
+theorem var_is_substitution (E : Bindings) (rk : String → Nat) (hE : Acyclic E rk) :
+    (∀ a b, solveTokens E (a ++ b) = solveTokens E a ++ solveTokens E b) ∧
+    (∀ t, hasVar t = false → solveTokens E [t] = [t]) ∧
+    (∀ name args, hasVar (.fn name args) = true → lower name ≠ "var" →
+        solveTokens E [.fn name args] = [.fn name (solveTokens E args)]) ∧
+    (∀ name v args rest l, lower name = "var" → hasPrefix "--" v = true →
+        parseArgs args false = some (.ident v :: rest) → E.lookup v = some l → l ≠ [] →
+        solveTokens E [.fn name args] = solveTokens E l) ∧
+    (∀ name v args rest, lower name = "var" → hasPrefix "--" v = true →
+        parseArgs args false = some (.ident v :: rest) → E.lookup v = none →
+        solveTokens E [.fn name args] = resFallback (expandVar E) [v] args false) := by
+  refine ⟨fun a b => resList_append _ _ a b, ?_, ?_, ?_, ?_⟩
+  · intro t ht
+    simp [solveTokens, resList, resTok_plain _ _ t ht]
+  · intro name args hv hn
+    simp [solveTokens, resList, resTok, hv, hn]
+  · intro name v args rest l hn hname hargs hdef hne
+    have := acyclic_never_cut E rk hE name v args rest l hn hname hargs hdef hne
+    simp only [resolveVar] at this
+    simp [solveTokens, resList, this]
+  · intro name v args rest hn hname hargs hundef
+    have hv : hasVar (.fn name args) = true := by
+      simp [hasVar, hargs, headIsVarName, hname, hn]
+    simp [solveTokens, resList, resTok, hv, hargs, hn, expandVar_none E v [v] hundef]
+
+/-- the hypothesis is satisfiable: a diamond-shaped environment is acyclic -/
+example : Acyclic [("--d", [.dim "1" "px"]), ("--b", [.fn "var" [.ident "--d"]]), ("--c", [.fn "var" [.ident "--d"]]),
+                   ("--a", [.fn "var" [.ident "--b"], .fn "var" [.ident "--c"]])]
+    (fun v => if v = "--a" then 2 else if v = "--b" then 1 else if v = "--c" then 1 else 0) := by
+  intro v l h w hw
+  simp only [List.lookup] at h
+  split at h
+  · cases h; simp [mrefsL, mrefs] at hw
+  · split at h
+    · cases h; simp [mrefsL, mrefs, parseArgs, lower_var] at hw; subst hw; simp_all
+    · split at h
+      · cases h; simp [mrefsL, mrefs, parseArgs, lower_var] at hw; subst hw; simp_all
+      · split at h
+        · cases h; simp [mrefsL, mrefs, parseArgs, lower_var] at hw
+          rcases hw with hw | hw <;> subst hw <;> simp_all
+        · simp at h
+
 /-
-  acyclic_never_cut (full statement, NOT proved): for an environment without dependency cycle and any
-  token list, no reference is cut, i.e. solveTokens env ts is the textual substitution (specResolve)
-  even with repeated references and diamond-shaped graphs.  Proved: the depth-one case for every
-  in-progress set (above), sibling independence at every level (siblings_independent,
-  repeated_reference_nested) and the concrete diamond / repeated shapes below, which agree with the
-  specification.  Missing: the induction over the dependency rank through resTok/resList/resFallback.
+  What is NOT proved: the identification of these equations with the executable specification
+  `specResolve` token by token (the two read malformed argument lists differently: a function
+  ParseFunction rejects is opaque to the model, the specification descends into it; whitespace inside a
+  fallback), and the case of the undefined reference's fallback resolved with nothing in progress.
+  On the shapes the harness generates, model and specification are compared at run time (P4).
 -/
 
 /-- `--pair: var(--x) var(--x)`; `margin: 1px 2px var(--pair)`: model = specification -/
